@@ -122,6 +122,16 @@ def B2I(b):
   return z3.If(b, 1, 0)
 
 
+def trunc_rem(x, c):
+  """x % c with the sign of the dividend (SQL MOD / SQLite %), c a non-zero Python int"""
+  c = abs(int(c))
+  if isc(x):
+    x = int(x)
+    return (x % c) if x >= 0 else -((-x) % c)
+  import z3 as _z3
+  return _z3.If(x >= 0, x % c, -((-x) % c))
+
+
 def as_bool(x):
   if isinstance(x, bool):
     return z3.BoolVal(x)
